@@ -239,8 +239,8 @@ theorem C19_late_answer_discarded (cfg : Cfg) (hg : cfg.good = true) (evs : List
 
 /-! ### each fact is needed: the machines of the code before 396fba5 / 93b0ba8 -/
 
-def before : Cfg := ⟨false, false, false, false, 5000⟩       -- shared unbuffered channel, connection never closed
-def closeOnly : Cfg := ⟨true, false, false, false, 5000⟩    -- after 396fba5 only
+def before : Cfg := ⟨false, false, false, false, 5000, true⟩       -- shared unbuffered channel, connection never closed
+def closeOnly : Cfg := ⟨true, false, false, false, 5000, true⟩    -- after 396fba5 only
 
 /-- late answer, nobody waiting: the handler blocks and the next request is stuck for ever -/
 example : (run before {} [.start, .timeout, .ret, .answer 1, .start]).wedged = true := by decide
